@@ -50,6 +50,52 @@ const (
 	xdwaRetransmit = 30 * time.Millisecond // RetransmitInterval
 )
 
+// within polls until cond holds or d of OBSERVED time has passed: time is counted in steps of at
+// most 20 ms, so that a pause of the whole process (a starved machine, a throttled container) does
+// not eat the budget of a bounded wait - the goroutines waited for were paused just the same.
+func within(d time.Duration, cond func() bool) bool {
+	var spent time.Duration
+	for {
+		if cond() {
+			return true
+		}
+		if spent >= d {
+			return false
+		}
+		t0 := time.Now()
+		time.Sleep(2 * time.Millisecond)
+		step := time.Since(t0)
+		if step > 20*time.Millisecond {
+			step = 20 * time.Millisecond
+		}
+		spent += step
+	}
+}
+
+// closedIn is closedWithin on that clock.
+func closedIn(ch <-chan struct{}, d time.Duration) bool {
+	return within(d, func() bool { return !isOpen(ch) })
+}
+
+// libraryGoroutine returns the stack of one goroutine the library started for a connection, or "".
+func libraryGoroutine() string { return leaked(0) }
+
+// leakedIn is leaked on that clock.
+func leakedIn(d time.Duration) string {
+	g := ""
+	within(d, func() bool { g = libraryGoroutine(); return g == "" })
+	return g
+}
+
+// handledIn is harness.waitHandled on that clock.
+func (h *harness) handledIn(n int, d time.Duration) bool {
+	return within(d, func() bool { h.mu.Lock(); defer h.mu.Unlock(); return len(h.seqs) >= n })
+}
+
+func transportClosedIn(mc *memnet.Conn, d time.Duration) bool {
+	return within(d, func() bool { cl, _ := mc.Closed(); return cl })
+}
+
 func dwaBytes(hbh, e2e, resultCode uint32) []byte {
 	return refcodec.EncodeMessage(refcodec.Header{Version: 1, Code: 280, HopByHop: hbh, EndToEnd: e2e},
 		[]*refcodec.Node{{Code: 268, Flags: 0x40, Payload: refcodec.U32(resultCode)}, {Code: 264, Flags: 0x40, Payload: []byte("srv.example")},
@@ -57,7 +103,7 @@ func dwaBytes(hbh, e2e, resultCode uint32) []byte {
 }
 
 func runExtraDWA(c ExtraDWACase) *ev.Failure {
-	if pre := leaked(2 * time.Second); pre != "" {
+	if pre := leakedIn(2 * time.Second); pre != "" {
 		return ev.Failf("goroutine-leak-after-earlier-case", "a goroutine the library started for a connection of an EARLIER case is still alive (that connection had terminated):\n%s", pre)
 	}
 	h := &harness{entered: make(chan struct{}), fired: make(chan bool, 1)}
@@ -203,7 +249,7 @@ func runExtraDWA(c ExtraDWACase) *ev.Failure {
 	for i := 0; i < c.Warm; i++ {
 		mc.Feed(appMessage(sent, false))
 		sent++
-		if !h.waitHandled(sent, promptly) {
+		if !h.handledIn(sent, promptly) {
 			if !closedEarly() {
 				return ev.Failf("message-not-dispatched", "%s: application message %d was not handled within %v", desc, sent, promptly)
 			}
@@ -256,9 +302,7 @@ func runExtraDWA(c ExtraDWACase) *ev.Failure {
 		mc.WaitParked(20 * time.Millisecond)
 		closed := make(chan struct{})
 		go func() { conn.Close(); close(closed) }()
-		select {
-		case <-closed:
-		case <-time.After(promptly):
+		if !closedIn(closed, promptly) {
 			return ev.Failf("local-close-blocked", "%s: Close() did not return within %v", desc, promptly)
 		}
 	case "watchdog-gives-up":
@@ -268,28 +312,28 @@ func runExtraDWA(c ExtraDWACase) *ev.Failure {
 	mu.Lock()
 	held := appCh
 	mu.Unlock()
-	if held != nil && !closedWithin(held, 2*promptly) {
+	if held != nil && !closedIn(held, 2*promptly) {
 		return ev.Failf("never-fired", "%s: the CloseNotify channel the application requested after the handshake was not closed within %v", desc, 2*promptly)
 	}
 	for i := 0; i < c.Late; i++ {
-		if c.End == "watchdog-gives-up" && !mc.WaitClosed(2*promptly) {
+		if c.End == "watchdog-gives-up" && !transportClosedIn(mc, 2*promptly) {
 			break // reported below
 		}
 		late, bf := requestCh(cn)
 		if bf != nil {
 			return bf
 		}
-		if !closedWithin(late, 2*promptly) {
+		if !closedIn(late, 2*promptly) {
 			return ev.Failf("late-request-never-fired", "%s: a CloseNotify channel requested after the end of the connection was not closed within %v", desc, 2*promptly)
 		}
 	}
-	if c.End == "watchdog-gives-up" && !mc.WaitClosed(2*promptly) {
+	if c.End == "watchdog-gives-up" && !transportClosedIn(mc, 2*promptly) {
 		return ev.Failf("transport-not-closed", "%s: the watchdog request after the script was never answered and the transport was not closed within %v", desc, 2*promptly)
 	}
-	if g := leaked(promptly); g != "" {
+	if g := leakedIn(promptly); g != "" {
 		return ev.Failf("goroutine-leak", "%s; %v later a goroutine the library started for the connection is still alive:\n%s", desc, promptly, g)
 	}
-	if !mc.WaitClosed(promptly) {
+	if !transportClosedIn(mc, promptly) {
 		return ev.Failf("transport-not-closed", "%s: the transport was not closed within %v", desc, promptly)
 	}
 	h.mu.Lock()
